@@ -107,6 +107,11 @@ def run(lines, out, args):
                     tr.append(t(lambda: IA.providedBy(o)))
                     tr.append(t(lambda: IB.providedBy(o)))
             tr.append(t(lambda: IA.isOrExtends(42)))
+            # an unhashable argument: the question itself fails (it is a dictionary membership test in both implementations)
+            for bad in ([], {}, set(), [IA]):
+                tr.append(t(lambda: IA.isOrExtends(bad)))
+                tr.append(t(lambda: IB(bad) if rnd.random() < 0 else Specification((IA,))(bad)))
+                tr.append(t(lambda: implementedBy(K).isOrExtends(bad)))
             tr.append(t(lambda: IB.isOrExtends(IA)))
             tr.append(t(lambda: IB.extends(IA, strict=False)))
             tr.append(t(lambda: Specification((IA,)).isOrExtends(IA)))
@@ -202,6 +207,35 @@ def run(lines, out, args):
                         hooks[:] = [lambda i, ob: None, lambda i, ob: "hooked" if rnd.random() < 2 else None]
                         tr.append(t(lambda: I(o)))
                         tr.append(t(lambda: I(o, "alt")))
+                        # hooks that change the list of hooks while it is being walked: shorten it (the walk ends at the
+                        # new end), empty it, extend it (the new hook is reached)
+                        calls = []
+
+                        def h_pop(i, ob):
+                            calls.append("pop")
+                            hooks.pop()
+
+                        def h_clear(i, ob):
+                            calls.append("clear")
+                            del hooks[:]
+
+                        def h_add(i, ob):
+                            calls.append("add")
+                            if len(hooks) < 6:
+                                hooks.append(h_val)
+
+                        def h_none(i, ob, calls=calls):
+                            calls.append("none")
+
+                        def h_val(i, ob):
+                            calls.append("val")
+                            return "late"
+                        for shape in ([h_pop, h_none, h_none], [h_none, h_pop, h_val], [h_clear, h_val, h_none], [h_add, h_none], [h_pop, h_pop, h_none, h_val, h_val],
+                                      [h_none, h_clear], [h_add, h_pop, h_none]):
+                            hooks[:] = list(shape)
+                            del calls[:]
+                            tr.append(t(lambda: I(o, "alt")))
+                            tr.append("/".join(calls))
                         hooks[:] = []
                         tr.append(t(lambda: I(o, None)))
                         o.__conform__ = lambda i: "conformed"
